@@ -24,6 +24,7 @@ import (
 	"runtime/debug"
 	"sort"
 	"strings"
+	"syscall"
 	"time"
 )
 
@@ -31,7 +32,7 @@ func init() {
 	vRegister("c15_tv", c15TV)
 	vRegister("c15_mbt", c15MBT)
 	vRegister("c15_replay", c15Replay)
-	vRegister("c15_probe", c15Probe)
+	vRegister("c15_limits", c15Limits)
 }
 
 // ---------------------------------------------------------------- trees
@@ -366,12 +367,12 @@ func c15ErrClass(msg string) string {
 	switch {
 	case msg == "":
 		return ""
+	case strings.Contains(msg, "too many open files"):
+		return "emfile"
 	case strings.Contains(msg, "EOF but left"):
 		return "eof-left"
 	case strings.Contains(msg, "Open ["):
 		return "open"
-	case strings.Contains(msg, "too many open files"):
-		return "emfile"
 	case strings.Contains(msg, "Decode archive header"):
 		return "decode"
 	case strings.Contains(msg, "no progress"):
@@ -479,7 +480,7 @@ type c15Plan struct {
 	pipelined bool
 	maxRead   int
 	maxWrite  int
-	bias      bool // aim reads / cuts at structure boundaries
+	bias      bool                         // aim reads / cuts at structure boundaries
 	resizes   func(s *c15Sess) []c15Resize // decided once the layout of the real stream is known
 }
 
@@ -538,6 +539,7 @@ func (r *c15Rec) begin(run int, kind string, pipelined bool) {
 	s := r.s
 	r.rstate = "run"
 	r.tr.Emit(map[string]any{"e": "reset", "run": run, "kind": kind, "entries": len(s.subs), "pipelined": pipelined, "top": s.tree.Top}, nil)
+	r.tr.Emit(map[string]any{"e": "scan", "res": "ok", "cls": "", "dirfds": s.scanDirFds}, nil)
 	for k, f := range s.subs {
 		nd := s.tree.Nodes[s.node[k]]
 		ev := map[string]any{"e": "entry", "dir": f.IsDir, "hdr": s.hdrLen[k], "size": int(f.Size), "parent": s.parent[k], "name": nd.Name}
@@ -737,6 +739,11 @@ func c15Replay(d *vCtx) error {
 			tree.Nodes = append(tree.Nodes, nd)
 		}
 	}
+	if len(tree.Nodes) == 0 && len(evs) > 0 && evs[0]["kind"] == "limit-scan" {
+		for i := 0; i < c15Int(evs[0]["entries"]); i++ {
+			tree.Nodes = append(tree.Nodes, c15Node{Dir: true, Name: fmt.Sprintf("d%d", i), Parent: -1})
+		}
+	}
 	if len(tree.Nodes) == 0 {
 		return fmt.Errorf("no entry events in the run")
 	}
@@ -756,8 +763,27 @@ func c15Replay(d *vCtx) error {
 	if d.pBool("gcoff", false) {
 		defer debug.SetGCPercent(debug.SetGCPercent(-1))
 	}
+	if nofile := d.pInt("nofile", 0); nofile > 0 {
+		var lim syscall.Rlimit
+		if err := syscall.Getrlimit(syscall.RLIMIT_NOFILE, &lim); err != nil {
+			return err
+		}
+		orig := lim
+		lim.Cur = uint64(nofile)
+		if err := syscall.Setrlimit(syscall.RLIMIT_NOFILE, &lim); err != nil {
+			return err
+		}
+		defer syscall.Setrlimit(syscall.RLIMIT_NOFILE, &orig)
+	}
 	s, err := c15Open(filepath.Join(root, "run"), tree, order)
 	if err != nil {
+		if strings.HasPrefix(err.Error(), "checkPathsReadable:") {
+			msg := strings.SplitN(err.Error(), "\n", 2)[0]
+			tr.Emit(map[string]any{"e": "reset", "run": 1, "kind": "replay", "entries": len(tree.Nodes), "pipelined": false, "top": tree.Top}, nil)
+			tr.Emit(map[string]any{"e": "scan", "res": "err", "cls": c15ErrClass(msg), "dirfds": -1, "msg": msg}, nil)
+			d.set("events", tr.Len())
+			return tr.Close()
+		}
 		return err
 	}
 	defer s.cleanup()
@@ -1159,8 +1185,11 @@ func c15MBTShard(d *vCtx, shard, nshards int) error {
 				st := sv.(map[string]any)
 				steps++
 				ro, wo := c15Int(st["ro"]), c15Int(st["wo"])
+				// On a consumer step the model's producer may be in the middle of a Read call
+				// (file of the next entry already opened): its descriptors are compared on
+				// producer steps only.
 				checkFds := func(rf, wf int) bool {
-					if rf != ro {
+					if rf != ro && st["a"] != "wr" && st["a"] != "wclose" {
 						bad(si, "fds-reader", ro, rf, "producer-side descriptors differ from the model")
 						return false
 					}
@@ -1305,30 +1334,89 @@ func c15MBTShard(d *vCtx, shard, nshards int) error {
 	return vWriteJSON(d.path("mismatches.json"), mism)
 }
 
-// c15Probe: throw-away measurements (not part of the check).
-func c15Probe(d *vCtx) error {
-	root, _ := os.MkdirTemp("/dev/shm", "c15pr-")
+// c15Limits: trees with more entries than the process may hold open files.  RLIMIT_NOFILE is
+// lowered to `nofile` (default 64) for this process; a flat tree of `n` directories is scanned,
+// then a tree of `n` entries is sent and received.  Recorded like every other run.
+func c15Limits(d *vCtx) error {
+	n := d.pInt("n", 300)
+	root, err := os.MkdirTemp("/dev/shm", "c15lim-")
+	if err != nil {
+		return err
+	}
 	defer os.RemoveAll(root)
-	rng := d.rng(1)
-	t0 := time.Now()
-	for i := 0; i < 20000; i++ {
-		c15Fds(root+"/src", root+"/dst")
+	tr, err := vNewTrace(d.path("trace-00.ndjson"))
+	if err != nil {
+		return err
 	}
-	d.set("fds_us", int(time.Since(t0).Microseconds()/20000))
-	t0 = time.Now()
-	for i := 0; i < 2000; i++ {
-		tree := c15RandomTree(rng, 2, 2, 3, func() int { return 2 }, false)
-		s, err := c15Open(filepath.Join(root, fmt.Sprintf("c%d", i)), tree, nil)
-		if err != nil {
-			return err
-		}
-		s.cleanup()
+	tr2, err := vNewTrace(d.path("trace-01.ndjson"))
+	if err != nil {
+		return err
 	}
-	d.set("open_cleanup_us", int(time.Since(t0).Microseconds()/2000))
-	t0 = time.Now()
-	for i := 0; i < 2000; i++ {
-		encodeString("{\"path_id\":0,\"path_name\":[\"abc\",\"def\"],\"is_dir\":false,\"archive\":false,\"size\":3,\"perm\":420}")
+	rng := d.rng(18)
+	flat := &c15Tree{Top: "dirs"}
+	for i := 0; i < n; i++ {
+		flat.Nodes = append(flat.Nodes, c15Node{Dir: true, Name: fmt.Sprintf("d%d", i), Parent: -1})
 	}
-	d.set("encode_us", int(time.Since(t0).Microseconds()/2000))
-	return nil
+	srcBase := filepath.Join(root, "scan", "src")
+	top, err := c15Materialise(srcBase, flat)
+	if err != nil {
+		return err
+	}
+	many := c15ManyTree(rng, n)
+	var lim syscall.Rlimit
+	if err := syscall.Getrlimit(syscall.RLIMIT_NOFILE, &lim); err != nil {
+		return err
+	}
+	orig := lim
+	lim.Cur = uint64(d.pInt("nofile", 64))
+	if err := syscall.Setrlimit(syscall.RLIMIT_NOFILE, &lim); err != nil {
+		return err
+	}
+	restore := func() { _ = syscall.Setrlimit(syscall.RLIMIT_NOFILE, &orig) }
+	defer restore()
+	// 1. the scan alone
+	list, serr := checkPathsReadable([]string{top}, true)
+	_, _, dirfds := c15Fds(srcBase, filepath.Join(root, "scan", "dst"))
+	restore()
+	tr.Emit(map[string]any{"e": "reset", "run": 1, "kind": "limit-scan", "entries": n, "pipelined": false, "top": flat.Top}, nil)
+	if serr != nil {
+		msg := strings.SplitN(serr.Error(), "\n", 2)[0]
+		tr.Emit(map[string]any{"e": "scan", "res": "err", "cls": c15ErrClass(msg), "dirfds": dirfds, "msg": msg}, nil)
+		d.set("scan_err", msg)
+	} else {
+		tr.Emit(map[string]any{"e": "scan", "res": "ok", "cls": "", "dirfds": dirfds}, nil)
+	}
+	d.set("scan_entries", len(list))
+	d.set("scan_dirfds", dirfds)
+	list = nil
+	runtime.GC() // the handles the scan left behind must not disturb the second part
+	time.Sleep(20 * time.Millisecond)
+	runtime.GC()
+	time.Sleep(20 * time.Millisecond)
+	// 2. a whole archive
+	if err := syscall.Setrlimit(syscall.RLIMIT_NOFILE, &lim); err != nil {
+		return err
+	}
+	stats := map[string]int{}
+	old := debug.SetGCPercent(-1)
+	err = c15Record(tr2, 2, filepath.Join(root, "xfer"), many, c15Plan{kind: "limit", maxRead: 4096, maxWrite: 4096}, rng, stats)
+	debug.SetGCPercent(old)
+	restore()
+	if err != nil {
+		// the harness could not even set the run up (the scan fails under the limit)
+		msg := strings.SplitN(err.Error(), "\n", 2)[0]
+		tr2.Emit(map[string]any{"e": "reset", "run": 2, "kind": "limit", "entries": n, "pipelined": false, "top": many.Top}, nil)
+		tr2.Emit(map[string]any{"e": "scan", "res": "err", "cls": c15ErrClass(msg), "dirfds": -1, "msg": msg}, nil)
+		d.set("xfer_setup_err", msg)
+	}
+	for k, v := range stats {
+		d.set(k, v)
+	}
+	d.set("nofile", int(lim.Cur))
+	d.set("events", tr.Len()+tr2.Len())
+	d.set("runs", 2)
+	if err := tr.Close(); err != nil {
+		return err
+	}
+	return tr2.Close()
 }
